@@ -14,4 +14,4 @@ Extraction "model.ml" io_witness N.div_eucl N.add N.mul N.pow
   uid_from_string uid_to_string mac_from_string mac_to_string
   dmx_set_from_string dmx_to_string dmx_text_in_finding
   ipv4_from_string ipv4_to_string sockaddr_from_string sockaddr_to_string
-  cid_from_string cid_to_string nil_uuid.
+  cid_from_string cid_to_string nil_uuid stream_seq.
